@@ -215,7 +215,7 @@ class IntermediateCodeGen(AbstractCodeGen):
             baseSymType, baseSymSubtype = self.getBaseType(*symType)
             if isinstance(baseSymSubtype, list):
                 if isinstance(symSubtype, list):
-                    symSubtype += baseSymSubtype
+                    symSubtype = symSubtype + baseSymSubtype
                 else:
                     symSubtype = baseSymSubtype
 
